@@ -1,4 +1,4 @@
-// UNIT U-TCP: util/refined_tcp_stream.rs  RefinedTcpStream::{read, write, flush, drop}  (DESIGN 5 / C12, C15)
+// UNIT U-TCP: util/refined_tcp_stream.rs  RefinedTcpStream::{new, read, write, flush, drop}  (DESIGN 5 / C12, C15)
 #![allow(unused_imports, dead_code, unused_variables, unused_mut)]
 use vstd::prelude::*;
 use std::io::Result as IoResult;
@@ -66,6 +66,24 @@ impl ReadSpecImpl for RefinedTcpStream {
     open spec fn drained(&self) -> Seq<u8> { Seq::empty() }
     open spec fn owns_source(&self) -> bool { true }
 }
+
+// the crate's `impl Clone for Stream` duplicates the OS handle (try_clone): contract-free here, only its type matters
+impl Clone for Stream {
+    #[verifier::external_body]
+    fn clone(&self) -> (r: Self) { unimplemented!() }
+}
+
+//@impl src/util/refined_tcp_stream.rs "impl RefinedTcpStream"
+//@fn new ret r props C12,C15
+//@spec
+    ensures
+        // O-HALVES (C12): the two handles made for a connection own one direction each -- the first (given to the request
+        // readers) the receiving side only, the second (given to the response writers) the sending side only; with
+        // O-SHUTDOWN below, the sending side is therefore closed by the death of the last WRITER and by nothing else
+        r.0.closes_read() && !r.0.closes_write(),
+        r.1.closes_write() && !r.1.closes_read(),
+//@endfn
+//@endimpl
 
 //@impl src/util/refined_tcp_stream.rs "Read for RefinedTcpStream"
 //@fn read ret res props C12,C13,C15
